@@ -23,7 +23,7 @@ if hasattr(_sys, 'set_int_max_str_digits'):
 NA = ('eigen_sym33_non_unit / eigen_sym33_unit on general symmetric tensors (rational functions of degree ~8 in six variables with a dozen '
       'data-dependent switches): replaced by their contract in O5/O6; the real routine is decided only on the low-dimensional families of O7',
       'pow_symm / _pow_relative_difference ACCURACY near repeated eigenvalues (their real-arithmetic identities are in O4 / O5b.rule_pow)', 'right_polar_decomposition',
-      'LinAlg.sqrtm / sqrtm_dbp / logm_iss / log_pade_pf (while loops over LU-based inverses)',
+      'LinAlg.sqrtm / logm_iss / log_pade_pf and the convergence of sqrtm_dbp (only its one-step rule and the scalar case are decided: O9)',
       'equivalence of a single compiled call and vmap/jit batches (JAX transformation semantics are part of the trusted base)',
       'rounding error of the evaluation (all values are mathematical reals)')
 
@@ -53,6 +53,11 @@ DESIGNED_NOT_REGISTERED = [
     ('O7 deflation stage, members whose out-of-plane eigenvalue -2d is the extreme one (cases C+/C-)', 'unknown @60 s with and without sqrt hints (the '
      'Wilkinson discriminant is a perfect square the solver does not find within the pruning time-out)'),
     ('O1b derivative of inv: A d(inv A) A = -dA (or d(inv) = -inv dA inv)', 'unknown @15-60 s per entry (rational identity in 18 variables with 1/det and its derivative; one query hangs past its time-out); the hand-written-rule seed on det/adjugate is caught by the det / detpIm1 atoms'),
+    ('O7 deflation stage on block-form tensors WITH in-plane shear and isolated out-of-plane extreme eigenvalue [[a,b,0],[b,c,0],[0,0,d]], b != 0 (4 parameters)',
+     'unknown @30 s per atom (the Wilkinson discriminant is a genuine irrational; half of the branch conditions stay undecided); registered: b = 0 '
+     '(O7.eigen_sym33_deflation_out_of_plane_extreme) and the pivot selection over all row norms (O7.eigen_sym33_pivot_selection)'),
+    ('O9 convergence of sqrtm_dbp for non-scalar matrices / contraction factor per sweep', 'needs an invariant over 32 sweeps of a matrix iteration with LU-based '
+     'inverse: not attempted; registered: the one-step rule for arbitrary 2x2 pre-states and exact one-sweep convergence for a I'),
     ('O8a with a general (non-eigenframe) V', 'unknown/hang @300 s (degree-7 rational identity in 40 variables); eigenframe registered'),
     ('O8b with both directions symbolic', 'entries [02],[12] unknown @60 s; registered with the second direction over the symmetric basis (linearity)'),
     ('O7 monolithic queries on eigen_sym33_unit without the normalisation cut for 1-parameter families other than s*I', 'erratic (14 s to unknown @120 s '
@@ -2004,3 +2009,227 @@ def o6b(h):
             W = madd(mm(D, C), mm(C, D))
             return asm, [Eq(L[x][y], W[x][y], name='jvp_m2_is_dA_A_plus_A_dA[%d%d]' % (x, y), scale=1.0) for x in range(3) for y in range(x, 3)]
         c.prove('m=2.axis%d.rule' % axis, spec_d, order=('core', 'nlsat'), denoms=True, cap=30)
+
+
+# ------------------------------------------------------------------------------------------------ O9: one step of the Denman-Beavers product iteration
+def _dbp_body():
+    from optimism import LinAlg
+    cj = jax.make_jaxpr(LinAlg.sqrtm_dbp)(jnp.eye(2))
+    ws = jx.find_eqns(cj.jaxpr, 'while')
+    if len(ws) != 1:
+        raise jx.JXError('expected exactly one while loop in sqrtm_dbp, found %d' % len(ws))
+    w = ws[0]
+    if w.params['body_nconsts'] != 0 or w.params['cond_nconsts'] != 1:
+        raise jx.JXError('sqrtm_dbp loop: expected no body constants and one cond constant (tol), found %d / %d' % (w.params['body_nconsts'], w.params['cond_nconsts']))
+    return w.params['body_jaxpr'], w.params['cond_jaxpr']
+
+
+DBP_TOL = float(0.5 * onp.sqrt(2.0) * onp.finfo(onp.float64).eps)       # the loop's only closed-over value: tol = 0.5 sqrt(dim) eps, dim = 2
+
+
+def _dbp_real_step(body, X, Mm, error, k, diff):
+    """the REAL loop body (its jaxpr, executed by the real primitives) on concrete floats"""
+    out = jax.core.eval_jaxpr(body.jaxpr, body.consts, jnp.asarray(X, dtype=float), jnp.asarray(Mm, dtype=float), jnp.asarray(float(error)),
+                              jnp.asarray(int(k), dtype=jnp.int64), jnp.asarray(float(diff)))
+    return [onp.asarray(o) for o in out]
+
+
+@obligation(P, 'O9.sqrtm_dbp_scaled_step', cap=300)
+def o9(h):
+    """one step of the real loop body of LinAlg.sqrtm_dbp (2x2) from an ARBITRARY pre-state (X, M, diff): the step uses the determinant
+    scaling g = |det M|^(-1/(2n)) exactly when diff >= scaleTol = 0.01 and g = 1 otherwise, and is the scaled product-form Denman-Beavers
+    step: with Ms = g^2 M and N = Ms^-1: M' = (I + (Ms + N)/2)/2, X' = g X (I + N)/2. Consequence for scalar matrices A = a I, every a > 0
+    (any magnitude): the first step from the initial state lands exactly on sqrt(a) I with M' = I, error 0, so the loop exits after one sweep"""
+    _guard(h)
+    from optimism import LinAlg
+    h.encoded(LinAlg.sqrtm_dbp)
+    h.bounds('one-step: X, M all real 2x2 (8 reals), M and g^2 M non-singular, diff all reals, scaleTol = 0.01 as in the source; '
+             'scalar consequence: A = a I (2x2), all reals a > 0, initial loop state (A, A, error0, 0, 2 scaleTol)')
+    h.outside('convergence of the iteration for general matrices, the iteration count, LinAlg.logm_iss / log_pade_pf, n > 2', *NA)
+    h.assume_note('the loop body is taken out of the while equation of the traced sqrtm_dbp (one-step obligation); np.linalg.inv is encoded relationally '
+                  '(fresh N with (g^2 M) N = I, matrix assumed non-singular); |det|^(1/4) is an uninterpreted pow application, shared with the harness '
+                  'expression of the scale factor, with the instance (x^(1/4))^4 = x for the scalar consequence',
+                  'replay: the real loop body (its jaxpr executed by the real primitives) at the model state')
+    body, cond = _dbp_body()
+    ctx = jx.Ctx()
+    X, Mm = sym.sym_array('X', (2, 2)), sym.sym_array('M', (2, 2))
+    diff, err = z3.Real('diff'), z3.Real('error')
+    X1, M1, e1, k1, d1 = jx.eval_jaxpr(ctx, body.jaxpr, body.consts, X, Mm, jx.lift(err), jx.lift(0), jx.lift(diff))
+    # the harness' copy of the scale factor: same pow application by hash-consing on |det M|
+    cjs = jax.make_jaxpr(lambda A: jnp.abs(jnp.linalg.det(A)) ** (1.0 / 4.0))(jnp.eye(2))
+    dsc = s0(jx.eval_jaxpr(ctx, cjs.jaxpr, cjs.consts, Mm)[0])
+    h.fact('scale_factor_term_shared', any(n == 'pow' for _, n, _a in ctx.ufs.values()) and sum(1 for _, n, _a in ctx.ufs.values() if n == 'pow') == 1,
+           'the body and the harness expression |det M|^(1/4) are the same uninterpreted application', nontrivial=False)
+    inputs = dict(X=X, M=Mm, diff=diff, error=err)
+
+    def atoms_for(Xv, Mv, dv, X1v, M1v, dscv):
+        Xl, Ml, X1l, M1l = M(Xv), M(Mv), M(X1v), M(M1v)
+        I2 = [[1.0, 0.0], [0.0, 1.0]]
+        g = v_if(v_le(0.01, dv), v_mul(1.0, 1.0 / dscv) if sym.num(dscv) else 1 / sym.toz(dscv), 1.0)
+        Ms = [[v_mul(v_mul(g, g), Ml[a][b]) for b in range(2)] for a in range(2)]
+        N = [[v_sub(v_sub(v_mul(4.0, M1l[a][b]), v_mul(2.0, I2[a][b])), Ms[a][b]) for b in range(2)] for a in range(2)]      # from M' = (I + (Ms + N)/2)/2
+        MsN = [[v_sum([v_mul(Ms[a][c], N[c][b]) for c in range(2)]) for b in range(2)] for a in range(2)]
+        IpN = [[v_add(I2[a][b], N[a][b]) for b in range(2)] for a in range(2)]
+        XIN = [[v_mul(0.5, v_mul(g, v_sum([v_mul(Xl[a][c], IpN[c][b]) for c in range(2)]))) for b in range(2)] for a in range(2)]
+        sc = 1.0
+        return [Eq(MsN[a][b], I2[a][b], name='M_next_is_scaled_DB_update[%d%d]' % (a, b), scale=sc) for a in range(2) for b in range(2)] + \
+            [Eq(X1l[a][b], XIN[a][b], name='X_next_is_scaled_DB_update[%d%d]' % (a, b), scale=sc) for a in range(2) for b in range(2)]
+
+    def concrete(vals, which):
+        Xc, Mc = onp.asarray(vals['X'], dtype=float).reshape(2, 2), onp.asarray(vals['M'], dtype=float).reshape(2, 2)
+        out = _dbp_real_step(body, Xc, Mc, vals.get('error', 1.0), 0, vals['diff'])
+        dsc_c = abs(float(onp.linalg.det(Mc))) ** 0.25
+        ok = dsc_c > 0 and abs(float(onp.linalg.det(Mc))) > 1e-12
+        return ok, atoms_for(Xc, Mc, float(vals['diff']), out[0], out[1], dsc_c)[which], dict(X_next=out[0].tolist(), M_next=out[1].tolist(), scale_root=dsc_c)
+    side = ctx.all_side() + ctx.nonzero_denoms() + [dsc > 0]
+    zat = atoms_for(X, Mm, diff, X1, M1, dsc)
+    for name, hyp in (('far_from_converged', diff >= sym.rat(0.01)), ('nearly_converged', diff < sym.rat(0.01))):
+        for k, atom in enumerate(zat):
+            h.prove('%s.%s' % (name, atom.name), side + [hyp], atom, inputs=inputs, concrete=lambda v, k=k: concrete(v, k), cap=60, order=('core', 'nlsat'))
+
+    # ---- scalar matrices: the first sweep is exact
+    ctx2 = jx.Ctx()
+    a = z3.Real('a')
+    A = jx.lift(onp.array([[a, 0.0], [0.0, a]], dtype=object))
+    X1, M1, e1, k1, d1 = jx.eval_jaxpr(ctx2, body.jaxpr, body.consts, A, A, jx.lift(1.0e300), jx.lift(0), jx.lift(0.02))
+    keep = jx.eval_jaxpr(ctx2, cond.jaxpr, cond.consts, jx.lift(DBP_TOL), X1, M1, e1, k1, d1)[0][()]
+    pw = [(v, args) for v, n, args in ctx2.ufs.values() if n == 'pow']
+    ax = [z3.Implies(args[0] > 0, z3.And(v > 0, v * v * v * v == args[0])) for v, args in pw]
+    side2 = ctx2.all_side() + ctx2.nonzero_denoms() + ax + [a > 0]
+    X1l = M(X1)
+    XX = [[v_sum([v_mul(X1l[r][c], X1l[c][s]) for c in range(2)]) for s in range(2)] for r in range(2)]
+
+    def conc_scalar(vals, which):
+        av = float(vals['a'])
+        out = _dbp_real_step(body, av * onp.eye(2), av * onp.eye(2), 1.0e300, 0, 0.02)
+        Xn = out[0]
+        at = [Eq((Xn @ Xn).ravel().tolist(), [av, 0.0, 0.0, av], scale=av), Eq(out[1].ravel().tolist(), [1.0, 0.0, 0.0, 1.0]), Eq(float(out[2]), 0.0, scale=1.0)][which]
+        return av > 0, at, dict(X_next=Xn.tolist(), M_next=out[1].tolist(), error=float(out[2]))
+    sat = [('first_step_squares_to_A', Eq([XX[r][s] for r in range(2) for s in range(2)], [a, 0.0, 0.0, a], scale=a)),
+           ('first_step_M_is_identity', Eq([M(M1)[r][s] for r in range(2) for s in range(2)], [1.0, 0.0, 0.0, 1.0])),
+           ('first_step_error_is_zero', Eq(s0(e1), 0.0, scale=1.0))]
+    for k, (nm, atom) in enumerate(sat):
+        h.prove('scalar.%s' % nm, side2, atom, inputs=dict(a=a), concrete=lambda v, k=k: conc_scalar(v, k), cap=60, order=('nlsat', 'core'))
+    h.prove('scalar.loop_exits_after_first_step', side2, Holds(v_not(keep)), inputs=dict(a=a),
+            concrete=lambda v: (float(v['a']) > 0, Holds(not bool(jax.core.eval_jaxpr(cond.jaxpr, cond.consts, jnp.asarray(DBP_TOL), *[jnp.asarray(o) for o in _dbp_real_step(body, float(v['a']) * onp.eye(2), float(v['a']) * onp.eye(2), 1.0e300, 0, 0.02)])[0])), None),
+            cap=60, order=('nlsat', 'core'))
+
+
+# ------------------------------------------------------------------------------------------------ O7f: the row-pivot selection itself
+PIVOT_FLAGS = ('k0_largest', 'k1_largest', 'k2_largest')
+
+
+def _pivot_flags(kvals, symbolic):
+    """evaluate the REAL eigen_sym33_non_unit jaxpr with the named locals k0, k1, k2 replaced by the given values and read the named
+    locals k0_largest, k1_largest, k2_largest (the selection is a pure function of the three row norms)"""
+    T = TM()
+    base = jnp.asarray(onp.array([[1.0, 0.2, 0.1], [0.2, 0.5, 0.3], [0.1, 0.3, -0.4]]))
+    cj = jax.make_jaxpr(T.eigen_sym33_non_unit)(base)
+    ctx = jx.Ctx()
+    nl = NamedLocals(cj, T.eigen_sym33_non_unit, cut={'k0': lambda out: kvals[0], 'k1': lambda out: kvals[1], 'k2': lambda out: kvals[2]}, record=PIVOT_FLAGS)
+    ctx.hooks = nl
+    try:
+        jx.eval_jaxpr(ctx, cj.jaxpr, cj.consts, jx.lift(onp.asarray(base)))
+    except Exception:
+        if not all(f in nl.values for f in PIVOT_FLAGS):
+            raise
+        # downstream of the selection the injected norms are inconsistent with the rows (divisions by zero, ...): irrelevant here
+    return [s0(nl.values[f]) for f in PIVOT_FLAGS]
+
+
+@obligation(P, 'O7.eigen_sym33_pivot_selection', cap=120)
+def o7f(h):
+    """the row-pivot selection of eigen_sym33_non_unit as a function of the three squared row norms k0, k1, k2 (ALL reals, ties included):
+    exactly one of k0_largest, k1_largest, k2_largest is set, and the selected row has the maximal norm"""
+    _guard(h)
+    T = TM()
+    h.encoded(T.eigen_sym33_non_unit)
+    h.bounds('k0, k1, k2: all reals (every order, every tie pattern)')
+    h.outside('what the routine does with the selected row (see the deflation-stage and family obligations)', *NA)
+    h.assume_note('the named locals k0, k1, k2 of the real source are cut to free symbols (the selection code reads nothing else) and the named locals '
+                  'k0_largest, k1_largest, k2_largest are read from the interpreted jaxpr (NamedLocals); replay = the same real jaxpr executed by the real '
+                  'primitives with the model values injected for k0, k1, k2')
+    k = [z3.Real('k%d' % i) for i in range(3)]
+    f = _pivot_flags(k, True)
+    fb = [sym.tob(x) for x in f]
+
+    def atoms(fl_, kv):
+        b = [bool(x) if not sym.isz(x) else x for x in fl_]
+        one = v_or(v_and(b[0], v_not(b[1]), v_not(b[2])), v_and(v_not(b[0]), b[1], v_not(b[2])), v_and(v_not(b[0]), v_not(b[1]), b[2]))
+        mx = [v_and(v_le(kv[(i + 1) % 3], kv[i]), v_le(kv[(i + 2) % 3], kv[i])) for i in range(3)]
+        return [Holds(one, name='exactly_one_flag'),
+                Holds(v_and(*[sym.v_implies(b[i], mx[i]) for i in range(3)]), name='selected_row_has_maximal_norm')]
+
+    def concrete(vals, which):
+        kv = [float(vals['k%d' % i]) for i in range(3)]
+        fl_ = [bool(onp.asarray(x)) for x in _pivot_flags([jx.lift(v) for v in kv], False)]
+        return True, atoms(fl_, kv)[which], dict(flags=fl_, k=kv)
+    for i, atom in enumerate(atoms(fb, k)):
+        h.prove(atom.name, [], atom, inputs={'k0': k[0], 'k1': k[1], 'k2': k[2]}, concrete=lambda v, i=i: concrete(v, i), cap=30, order=('core', 'nlsat'), check_vacuity=False)
+
+
+# ------------------------------------------------------------------------------------------------ O7g: block-form tensors with isolated out-of-plane extreme eigenvalue
+def _oop_hyps(sgn, ordr):
+    def hyps(p):
+        a, c, d = p
+        c1 = _third(v_add(v_add(a, c), d))
+        xa, xc, xd = v_sub(a, c1), v_sub(c, c1), v_sub(d, c1)
+        c2 = v_add(v_add(v_mul(xa, xc), v_mul(xc, xd)), v_mul(xd, xa))
+        m = v_mul(0.5, v_add(a, c))
+        r2 = v_sq(v_mul(0.5, v_sub(a, c)))
+        gap = v_mul(sgn, v_sub(d, m))
+        k0, k1 = v_sq(v_sub(a, d)), v_sq(v_sub(c, d))
+        return [v_lt(c2, v_mul(-1e-30, v_sq(c1))), v_lt(0.0, gap), v_lt(v_mul(9.0, r2), v_sq(gap)), v_lt(k0, k1) if ordr == 'xx_closer' else v_lt(k1, k0)]
+    return hyps
+
+
+@obligation(P, 'O7.eigen_sym33_deflation_out_of_plane_extreme', cap=900)
+def o7g(h):
+    """deflation stage of the REAL eigen_sym33_non_unit on plane-strain block-form tensors diag(a, c, d) whose out-of-plane eigenvalue d is the
+    isolated extreme one (|d - (a+c)/2| > 3 |a-c|/2, above or below), for both orderings of the in-plane entries relative to d
+    (|a-d| < |c-d|: the SECOND row has the largest norm, and |c-d| < |a-d|): A v_i = lam_i v_i exactly, v_i non-zero and orthogonal, ascending"""
+    _guard(h)
+    _o7_meta(h)
+    T = TM()
+    h.bounds('a, c, d: all reals with d isolated extreme (sign +: above, -: below; thorough: both), a != c, not nearly isotropic (the code\'s own threshold); '
+             'orderings xx_closer (|a-d| < |c-d|, pivot must be row 1) and yy_closer; the third row of C - eval2 I is exactly zero on this family',
+             'with in-plane shear b != 0 ([[a,b,0],[b,c,0],[0,0,d]], 4 parameters): unknown @30 s, see DESIGNED_NOT_REGISTERED')
+    h.assume_note('cut with an ASSUMED lemma: the named local eval2 is replaced by the exact deviatoric eigenvalue d - (a+c+d)/3 (as in O7.eigen_sym33_deflation_on_pivot_ties); '
+                  'replays run the unmodified eigen_sym33_non_unit', 'branch pruning under the case hypotheses; cone-of-influence filtering of sqrt definitions')
+
+    def fam(p):
+        z = 0.0 * p[0]
+        return jnp.array([[p[0], z, z], [z, p[1], z], [z, z, p[2]]])
+    fn = lambda p: T.eigen_sym33_non_unit(fam(p)) + (fam(p),)
+    estar = lambda p: v_sub(p[2], _third(v_add(v_add(p[0], p[1]), p[2])))
+    for sgn in ((1.0, -1.0) if h.thorough() else (1.0,)):
+        for ordr in ('xx_closer', 'yy_closer'):
+            hyps = _oop_hyps(sgn, ordr)
+
+            def smp(rng, hyps=hyps):
+                for _ in range(100000):
+                    p = rng.uniform(-2, 2, size=3)
+                    if all(bool(x) for x in hyps([float(v) for v in p])):
+                        return [p]
+                raise RuntimeError('no sample')
+            name = 'diag_d_%s[%s]' % ('above' if sgn > 0 else 'below', ordr)
+            c = StageCase(h, fn, T.eigen_sym33_non_unit, 3, smp, name, hyps, cut={'eval2': estar})
+
+            def spec(i, o, hyps=hyps):
+                lam, V, A = list(o[0]), M(o[1]), M(o[2])
+                sc = _inf_norm(A)
+                AV, VL, G = mm(A, V), mm(V, mdiag(lam)), mm(mT(V), V)
+                nrm = [G[0][0], G[1][1], G[2][2]]
+                if sym.isz(nrm[0]) or sym.isz(sc):
+                    nz = Lt(0.0, nrm, name='eigenvectors_nonzero', scale=0.0)
+                else:
+                    ok = True
+                    for y in range(3):
+                        vmax = max(abs(V[x][y]) for x in range(3))
+                        res = max(abs(AV[x][y] - VL[x][y]) for x in range(3))
+                        ok = ok and vmax > 0.0 and res <= 1e-9 * sc * vmax      # NaN makes this False
+                    nz = Holds(ok, name='eigenvectors_nonzero')
+                return hyps(list(i['p'])), [Eq(AV[x][y], VL[x][y], name='eigen_equation_A_V_is_V_lam[%d%d]' % (x, y), scale=sc) for x in range(3) for y in range(3)] + [
+                    Eq([G[0][1], G[0][2], G[1][2]], 0.0, name='eigenvectors_orthogonal', scale=1.0), nz,
+                    Holds(v_and(v_le(lam[0], lam[1]), v_le(lam[1], lam[2])), name='ascending')]
+            prove_coi(c, name, spec, cap=30)
